@@ -243,7 +243,10 @@ def step1 (w : W) (op impl : String) : W × String × Verdict :=
     let s' := restart s
     let w' := setNode w n s'
     let expected := "Rok " ++ digest s'
-    let (m, v) := finish w' impl expected (implDs.getD 0 "") (digest s') implRes "ok"
+    -- a node that cannot start on its own (rebuildable) database violates C08; rebuilt data that
+    -- differs from the incrementally maintained data violates C07
+    let extra := if implRes != "ok" then ["C08[restart-fails]", "C07[rebuild-fails]"] else []
+    let (m, v) := finish w' impl expected (implDs.getD 0 "") (digest s') implRes "ok" extra
     (w', m, v)
   | [inj, n, _] =>
     if inj == "injf" || inj == "inju" then
@@ -281,7 +284,8 @@ def step1 (w : W) (op impl : String) : W × String × Verdict :=
       let s' := restart s
       let w' := setNode w n s'
       let expected := "Rok " ++ digest s'
-      let (m, v) := finish w' impl expected (implDs.getD 0 "") (digest s') implRes "ok"
+      let extra := if implRes != "ok" then ["C08[restart-fails]"] else []
+      let (m, v) := finish w' impl expected (implDs.getD 0 "") (digest s') implRes "ok" extra
       (w', m, v)
     else if o == "mkblock" then
       -- n is the block time; always on the publisher
